@@ -50,6 +50,22 @@ type World struct {
 
 var devMu sync.Mutex
 var devByName = map[string]*dev.Device{}
+var refuseAfterClose = map[string]bool{}
+
+// closableConn is one connection of a datastore incarnation to the harness device that, like the gNMI and NETCONF
+// targets, refuses Set once it was closed (the bare harness device accepts calls for ever).
+type closableConn struct {
+	*dev.Device
+	closed atomic.Bool
+}
+
+func (c *closableConn) Close() error { c.closed.Store(true); return nil }
+func (c *closableConn) Set(ctx context.Context, src target.TargetSource) (*sdcpb.SetDataResponse, error) {
+	if c.closed.Load() {
+		return nil, fmt.Errorf("target connection is closed")
+	}
+	return c.Device.Set(ctx, src)
+}
 var factoryOnce sync.Once
 var dsCounter atomic.Int64
 
@@ -106,6 +122,9 @@ func NewWorld(gamma, cacheDir string) (*World, error) {
 			if !ok {
 				return nil, fmt.Errorf("no harness device registered for %s", name)
 			}
+			if refuseAfterClose[name] {
+				return &closableConn{Device: d}, nil
+			}
 			return d, nil
 		}
 	})
@@ -141,6 +160,8 @@ type DSOpts struct {
 	Cache      cache.Client   // decorated cache client, default w.Cache
 	Schema     dschema.Client // decorated schema client, default w.Schema
 	Device     *dev.Device
+	// RefuseAfterClose: the target connection refuses Set after Datastore.Stop closed it
+	RefuseAfterClose bool
 }
 
 // NewDS creates a real Datastore on a (fresh) cache instance with the harness device as its SBI.
@@ -155,6 +176,7 @@ func (w *World) NewDS(o DSOpts) (*DS, error) {
 	}
 	devMu.Lock()
 	devByName[name] = d
+	refuseAfterClose[name] = o.RefuseAfterClose
 	devMu.Unlock()
 	cc := o.Cache
 	if cc == nil {
